@@ -99,7 +99,7 @@ class DeriveGrid1D:
         from autoarray.structures.grids.uniform_1d import Grid1D
 
         grid_slim = grid_1d_util.grid_1d_slim_via_mask_from(
-            mask_1d=self.mask,
+            mask_1d=self.mask.derive_mask.all_false,
             pixel_scales=self.mask.pixel_scales,
             origin=self.mask.origin,
         )
